@@ -13,6 +13,8 @@ import PdshVerif.Hostlist.Print
 import PdshVerif.Hostlist.PrintMore
 import PdshVerif.Hostlist.LemmasUniq
 import PdshVerif.Hostlist.LemmasDigits
+import PdshVerif.Hostlist.Find
+import PdshVerif.Hostlist.Parse
 
 namespace PdshVerif.Bridge.Hostlist
 open PdshVerif.Hostlist PdshVerif.C2Lean
@@ -421,5 +423,51 @@ theorem host_prefix_end_bridge (fuel : Nat) (s : Str) (hb : ∀ c ∈ s, c.toNat
   simp only [e]
   rw [host_prefix_end_loop fuel s hb hl s.length fuel (Nat.le_refl _) hf]
   simp [hostPrefixLen]
+
+/-! ### conditions INSIDE `_parse_single_range` and `hostrange_hn_within` (translated as expressions:
+    registry entries `parse_range_order`, `parse_range_toobig`, `hn_within_final`, `hn_within_retry`) -/
+
+def rangeC (lo hi : Nat) : _range := { (default : _range) with lo := lo, hi := hi }
+
+/-- BRIDGE `range->lo > range->hi` = the order test of `rangeCheck` -/
+theorem parse_range_order_bridge (lo hi : Nat) : parse_range_order (rangeC lo hi) = some (decide (lo > hi)) := by
+  by_cases h : lo > hi <;> simp [parse_range_order, rangeC, h] <;> omega
+
+/-- BRIDGE `range->hi == ULONG_MAX || range->hi - range->lo >= MAX_RANGE` = the size test of `rangeCheck`
+    (`rangeTooBig lo hi || ulongMaxRejected cfg hi`) for every ordered pair of `unsigned long`s, for the
+    configuration the behavioural probe of finding D15 reports (source text and probe must agree) -/
+theorem parse_range_toobig_bridge (cfg : Cfg) (hcfg : cfg.fixUlongMax = PdshVerif.Gen.FIX_D15_ULONGMAX)
+    (lo hi : Nat) (hle : lo ≤ hi) (hhi : hi < U64) :
+    parse_range_toobig (rangeC lo hi) = some (rangeTooBig lo hi || ulongMaxRejected cfg hi) := by
+  simp only [parse_range_toobig, rangeC, rangeTooBig, ulongMaxRejected, hcfg, PdshVerif.Gen.FIX_D15_ULONGMAX,
+    subU64, addU64, U64, ULONG_MAX, PdshVerif.Gen.MAX_RANGE] at *
+  by_cases h1 : hi = 18446744073709551615
+  · simp [h1]
+  · have e : (hi + 18446744073709551616 - lo) % 18446744073709551616 = hi - lo := by omega
+    have e2 : (hi - lo + 1) % 18446744073709551616 = hi - lo + 1 := by omega
+    simp only [e, e2, h1, false_or, Bool.true_and, decide_false, Bool.or_false]
+    congr 1
+    by_cases h2 : hi - lo ≥ 16384
+    · have : hi - lo + 1 > 16384 := by omega
+      simp [h2, this]
+    · have : ¬ hi - lo + 1 > 16384 := by omega
+      simp [h2, this]
+
+/-- the C `struct hostname_components` of a model host name with a numeric suffix -/
+def hnC (hn : Hostname) : hostname_components :=
+  { (default : hostname_components) with prefix_ := hn.pre, num := hn.num }
+
+/-- BRIDGE the last test of `hostrange_hn_within` = `hnMatch` (`len_hr`, `len_hn` are the two `strlen`s) -/
+theorem hn_within_final_bridge (r : HRange) (hn : Hostname) (hr : InC r)
+    (hb : ∀ c ∈ hn.pre, c.toNat < 256) :
+    hn_within_final (r.pre.length : Int) (hn.pre.length : Int) (hnC hn) (toC r) = some (hnMatch r hn) := by
+  have hs := strcmpS_eq hn.pre r.pre hb hr.bytes
+  have hz : strcmpSign hn.pre r.pre = 0 ↔ hn.pre = r.pre :=
+    ⟨strcmpSign_eq_zero _ _, fun h => by rw [h]; exact strcmpSign_self _⟩
+  simp only [hn_within_final, hnC, toC, hnMatch]
+  congr 1
+  by_cases h1 : r.pre.length = hn.pre.length <;> by_cases h2 : hn.pre = r.pre <;>
+    by_cases h3 : hn.num ≤ r.hi <;> by_cases h4 : hn.num ≥ r.lo <;>
+    simp_all [strcmpSign_self]
 
 end PdshVerif.Bridge.Hostlist
